@@ -358,10 +358,12 @@ func runC08(p *Prog, r *Report, tier string) {
 			eqLen, errNil := false, false
 			for _, fct := range blockFacts(in.Block()) {
 				if fct.Op == token.EQL {
-					if fct.X == ssa.Value(ex) {
-						if lc, ok := fct.Y.(*ssa.Call); ok {
-							if b, ok := lc.Call.Value.(*ssa.Builtin); ok && b.Name() == "len" && lc.Call.Args[0] == w.Call.Args[0] {
-								eqLen = true
+					for _, pr := range [][2]ssa.Value{{fct.X, fct.Y}, {fct.Y, fct.X}} {
+						if pr[0] == ssa.Value(ex) {
+							if lc, ok := pr[1].(*ssa.Call); ok {
+								if b, ok := lc.Call.Value.(*ssa.Builtin); ok && b.Name() == "len" && sameValue(lc.Call.Args[0], w.Call.Args[0]) {
+									eqLen = true
+								}
 							}
 						}
 					}
